@@ -468,7 +468,7 @@ impl Prop for NotifProp {
         let mut rng = Rng::fork(seed, &format!("notif-gen-{}", self.id));
         let n = rng.range(2, 3) as usize;
         let max_size = *rng.pick(&[64u64, 1024, 70_000]);
-        let ops = self.gen_ops(&mut rng, n, max_size, tier);
+        let mut ops = self.gen_ops(&mut rng, n, max_size, tier);
         let last = ops.iter().map(|o| o["at_ms"].as_u64().unwrap_or(0)).max().unwrap_or(0);
         let mut faults = Vec::new();
         if !rng.chance(2, 5) {
@@ -487,12 +487,28 @@ impl Prop for NotifProp {
                 "val_delay_ms": *rng.pick(&[0u64, 0, 20, 1500, 6000]),
             }));
         }
+        let sched = SchedKind::gen(&mut rng, 5000);
+        let net = NetKnobs::gen(&mut rng);
+        // keep the run inside the poll budget: with a carrier that moves 1-7 bytes per step the
+        // total volume is bounded (about 500 000 steps), later sends are thinned out
+        let mut allowed = net["max_chunk"].as_u64().unwrap_or(65536).saturating_mul(500_000);
+        for o in ops.iter_mut() {
+            if o["op"] == "send" {
+                let size = o["size"].as_u64().unwrap_or(1).max(1);
+                let count = o["count"].as_u64().unwrap_or(1);
+                let fit = (allowed / size).max(1).min(count);
+                if fit < count {
+                    o["count"] = json!(fit);
+                }
+                allowed = allowed.saturating_sub(fit * size);
+            }
+        }
         json!({
             "property": self.id,
             "seed": seed,
             "nodes": n,
-            "sched": SchedKind::gen(&mut rng, 5000),
-            "net": NetKnobs::gen(&mut rng),
+            "sched": sched,
+            "net": net,
             "node_knobs": gen_node_knobs(&mut rng),
             "max_size": max_size,
             "per_node": per_node,
@@ -517,7 +533,7 @@ impl Prop for NotifProp {
         let t1 = last_ms + SETTLE1_MS;
         let t2 = t1 + SETTLE2_MS;
         let horizon_ms = t2 + SETTLE3_MS;
-        run_sim(seed, sched, Duration::from_millis(horizon_ms), 6_000_000, verbose, move |handle: Handle| {
+        run_sim(seed, sched, Duration::from_millis(horizon_ms), 12_000_000, verbose, move |handle: Handle| {
             let net = SimNet::new(handle.clone(), seed, NetKnobs::from_json(&case["net"]));
             net.install();
             nodesim::install_static_faults(&net, &faults);
